@@ -142,10 +142,19 @@ func normNumbers(s string) string {
 }
 
 func runSched(prop, tier string, args []string, w *schedWorker, rule string, assume []string) int {
+	return runSchedWith(prop, tier, args, w, rule, assume, nil)
+}
+
+func runSchedWith(prop, tier string, args []string, w *schedWorker, rule string, assume []string, extra func(run *vf.Run) (int, []string)) int {
 	if sweep.IsWorker(args) {
 		return sweep.RunWorker(w, args)
 	}
 	run := vf.NewRun(prop, tier, "model_checking")
+	extraN := 0
+	var extraSamples []string
+	if extra != nil {
+		extraN, extraSamples = extra(run)
+	}
 	budget := 15 * time.Minute
 	if tier == "thorough" {
 		budget = 60 * time.Minute
@@ -168,11 +177,12 @@ func runSched(prop, tier string, args []string, w *schedWorker, rule string, ass
 	run.Coverage["distinct_nontrivial"] = res.Stats["nontrivial_executions"]
 	run.Coverage["exhaustive"] = res.Stats["scenarios_capped"] == 0 && !res.DeadlineHit && res.Done >= w.N()
 	run.Coverage["rule"] = rule
-	s := res.Samples
+	s := append(res.Samples, extraSamples...)
 	if len(s) == 0 {
 		s = []string{w.scenarios[0].Name}
 	}
 	run.Coverage["samples"] = s
+	run.Coverage["unscheduled_extra_cases"] = extraN
 	run.Assume = append([]string{
 		"scheduling points are the channel, mutex, wait-group, sleep, cancel and spawn operations of the instrumented files (tools/instr rewrites the current /repo sources; the site manifest is in .work/instr/out.json); code between two points runs atomically",
 		"the state cache identifies a state by every goroutine's causal hash and pending operation; shared memory the instrumenter does not hook is invisible to it (can lose behaviours, never invent one)",
